@@ -78,7 +78,8 @@ def run(chk, tier, replay=None):
     key_of = lambda base, v, kind: "C04|%s|%s" % (
         {"differs": "nondeterministic-output", "hang": "encode-hang", "crash": "encoder-crash"}[kind],
         common.hang_sig(base) if kind == "hang" else common.feature_sig(base))
-    results = equiv.run_groups(chk, "C04", groups, key_of, hang_in_scope=True, trace=True, per_result=per_result)
+    results = equiv.run_groups(chk, "C04", groups, key_of, hang_in_scope=True, trace=True, per_result=per_result,
+                               confirm_baseline=False)
     per_group = {}
     for (gi, vi, case, v, res, sig, prefix, extra) in results:
         if extra and extra[0]:
@@ -97,7 +98,7 @@ def run(chk, tier, replay=None):
               [rng.randrange(1, 1 << 30) for _ in range(2 if quick else 6)]]
         tgroups.append((b, vs))
     key_t = lambda base, v, kind: "C04|tsan-run-%s|%s" % (kind, common.feature_sig(base))
-    equiv.run_groups(chk, "C04", tgroups, key_t, hang_in_scope=True, collect_san=True)
+    equiv.run_groups(chk, "C04", tgroups, key_t, hang_in_scope=True, collect_san=True, confirm_baseline=False)
     return chk.finish(
         rule="for each configuration: one reference run and R runs that differ only in thread schedule (seeded "
              "perturbation at every mutex/semaphore/condvar operation of the library, different probabilities and delays); "
